@@ -1,9 +1,9 @@
-(* C16 Offline tools. Statements only; general theorems from Blob/ToolsProofs.v are added when proved. *)
+(* C16 Offline tools validate exactly well-formed files and recover without loss. Statements only. *)
 Require Import Pearl.Base.Prelude Pearl.Base.LE Pearl.Generated.Consts Pearl.Format.Record Pearl.Storage.Model
-               Pearl.Blob.Bytes Pearl.Blob.Scan.
+               Pearl.Blob.Bytes Pearl.Blob.Scan Pearl.Blob.ScanProofs Pearl.Blob.ToolsProofs.
 
 Definition c16_meta_ok (m : bytes) : bool := forallb (fun x => x =? 0) m.
-Definition c16_recs : list rec :=
+Definition c16_recs : list Pearl.Storage.Model.rec :=
   [mk_rec 16 7 false None 8 5 1; mk_rec 17 7 false None 8 40 2; mk_rec 18 7 false None 8 5 3].
 Definition c16_blob : bytes := blob_file_bytes 4 c16_recs.
 Definition flip_at (b : bytes) (pos : nat) : bytes := firstn pos b ++ [N.lxor (nth pos b 0) 1] ++ skipn (S pos) b.
@@ -43,3 +43,32 @@ Proof. vm_compute. split; [reflexivity|]. split; [eexists; reflexivity|discrimin
 Print Assumptions C16_accepts_produced_blob.
 Print Assumptions C16_recovery_validates.
 Print Assumptions C16_recovered_record_unreadable_refuted.
+
+(* ---- general theorems over every well-formed blob (Blob/ToolsProofs.v; `rec` there is (key, ts, meta, data)) ---- *)
+Section General.
+Variable meta_ok : bytes -> bool.   (* any decidable notion of decodable metadata *)
+(* validate_blob accepts a byte-prefix of a blob EXACTLY when the cut is at a record boundary: every produced blob is accepted, every truncation elsewhere is rejected *)
+Theorem C16_validate_accepts_exactly_record_boundaries :
+  forall K rs n, wf_recs K rs -> metas_ok meta_ok rs -> (n <= length (blob_bytes rs))%nat ->
+  (tool_validate_blob meta_ok (firstn n (blob_bytes rs)) = true
+   <-> exists j, (j <= length rs)%nat /\ n = boundary rs j).
+Proof. exact (tool_validate_prefix meta_ok). Qed.
+
+Theorem C16_validate_accepts_produced :
+  forall K rs, wf_recs K rs -> metas_ok meta_ok rs ->
+  tool_validate_blob meta_ok (blob_bytes rs) = true.
+Proof. exact (tool_validate_complete meta_ok). Qed.
+
+(* recovery of a blob cut at any length >= 20 returns exactly the blob of the records that lie completely inside the cut (with or without skipping), which validates by the theorem above *)
+Theorem C16_recovery_keeps_exactly_the_complete_records :
+  forall K rs n skip, wf_recs K rs -> metas_ok meta_ok rs ->
+  (20 <= n)%nat -> (n <= length (blob_bytes rs))%nat ->
+  let j := ncomplete 20 rs n in
+  tool_recover meta_ok (firstn n (blob_bytes rs)) skip = Some (blob_bytes (firstn j rs)) /\
+  (j <= length rs)%nat /\ (boundary rs j <= n)%nat /\ ((j < length rs)%nat -> (n < boundary rs (S j))%nat).
+Proof. exact (tool_recover_prefix meta_ok). Qed.
+
+End General.
+Print Assumptions C16_validate_accepts_exactly_record_boundaries.
+Print Assumptions C16_validate_accepts_produced.
+Print Assumptions C16_recovery_keeps_exactly_the_complete_records.
